@@ -415,6 +415,14 @@ impl Scenario for C20 {
                         }
                         obs.count("reach.relation_field_not_reference_readable");
                     }
+                    // fields the typed layer stores as text must agree line by line (blank continuation lines aside: the
+                    // lossy reader keeps them as empty lines, the lossless one does not report them); fields it re-serialises
+                    // (lists, dates, sets) are compared modulo whitespace
+                    let lines = |t: &str| t.split('\n').filter(|l| !l.trim().is_empty()).map(|l| l.to_string()).collect::<Vec<_>>();
+                    let reserialised = ["Types", "Architectures", "Components", "Suites", "Environment", "Targets", "Languages", "Binary", "Date", "Valid-Until", "Package-List", "URIs", "Signed-By", "Files", "Checksums-Sha1", "Checksums-Sha256", "Uploaders", "Tag"].contains(&name.as_str());
+                    if !reserialised && lines(&raw) != lines(val) {
+                        return Err(v("lossless-agreement", &kind, &format!("field-{name}"), format!("field {name}: typed value holds the lines {:?}, lossless reader shows {:?} (text {:?})", lines(val), lines(&raw), c.text)));
+                    }
                     let same = squash(&raw) == squash(val) || (name == "Types" && sorted_lines(&raw) == sorted_lines(val)) || (name == "Environment" && sorted_lines(&raw) == sorted_lines(val));
                     if !same {
                         return Err(v("lossless-agreement", &kind, &format!("field-{name}"), format!("field {name}: typed value serialises {:?}, lossless reader shows {:?} (text {:?})", val, raw, c.text)));
